@@ -27,6 +27,7 @@ RULE = ("every combination of idle_timeout in {None, 4}, socket_timeout in {None
         "C12's ledger is clean afterwards.  distinct = distinct (configuration, script, stall position, outcome); non-trivial = a "
         "timeout actually fired.")
 RULE += ("  " + 'Also: exact small unsent remainders at close; speed limits (a chatty client and a steadily moving transfer are not given up); black-box bound for a stalled upload.')
+RULE += ("  " + 'Also (round 6): the silent peer stalls inside login sequences (password login, wrong password then right one, second USER, wrong password only).')
 RULE += ("  " + "Also: reply flood, then QUIT behind a blocked reply writer; a closed stream whose remainder the peer reads before the linger timer fires (nothing may reach the loop's exception handler).")
 ASSUMPTIONS = ["virtual time; commands are delivered in one segment (MSS 1460) so that 'arrival of the command line' is one event",
                "mapping of configured values to channel/direction as documented: idle_timeout = control reads, socket_timeout = "
@@ -452,8 +453,8 @@ def gen_cases(tier, seed):
     rng = random.Random(seed * 41 + 3)
     cases = []
     cfgs = [{"idle": i, "sock": s, "wft": wv} for i in (None, 4) for s in (None, 3) for wv in (1, 2.5)]
-    scripts = ["walk", "stor_slow", "retr_pasv", "mlsd", "two_transfers", "retr_huge"] if tier == "quick" else \
-        ["login_quit", "walk", "stor_slow", "stor_pasv", "retr_pasv", "retr_epsv_after", "mlsd", "list", "two_transfers", "retr_huge",
+    scripts = ["walk", "stor_slow", "retr_pasv", "mlsd", "two_transfers", "retr_huge", "login_retry", "relogin"] if tier == "quick" else \
+        ["login_quit", "login_pw", "login_retry", "login_bad_pw", "relogin", "walk", "stor_slow", "stor_pasv", "retr_pasv", "retr_epsv_after", "mlsd", "list", "two_transfers", "retr_huge",
          "rename", "pasv_twice", "appe"]
     for cfg in cfgs:
         for name in scripts + ["flood"]:
